@@ -233,6 +233,8 @@ type c06Case struct {
 	// empty log) and the source is a tampered copy of the destination's OWN full history, so that the
 	// candidates are the entries the truncated replica lacks
 	Trunc int `json:"trunc,omitempty"`
+	// Size, when set, is size+1 of a size-bounded merge (0 = unbounded): validation must not depend on the bound
+	Size int `json:"size,omitempty"`
 }
 
 func l0Clock(w *seqx.World, r int) int { return w.Logs[r].Clock.GetTime() }
@@ -331,9 +333,28 @@ func tamperOne(p *run.Part, cfg *seqx.Config, cc c06Case) {
 	pre := seqx.SnapPre(w, false)
 	_, inDst := dst.Get(bad.GetHash())
 	var jerr error
-	pv, stack := run.Safe(func() { _, jerr = dst.Join(tsrc, -1) })
+	pv, stack := run.Safe(func() { _, jerr = dst.Join(tsrc, cc.Size-1) })
 	p.Add(0, 1, 0, 1)
 	desc := fmt.Sprintf("after %s: merging into replica %d a copy of replica %d whose entry #%d (%s) has fault %q", path, cc.Dst, cc.Src, cc.Pos, string(vals[cc.Pos].GetPayload()), cc.Fault)
+	if cc.Size > 0 {
+		desc += fmt.Sprintf(" (size-bounded merge, size=%d)", cc.Size-1)
+		// with a size bound only the rejection is judged here (what a successful bounded merge keeps is C16's subject)
+		if pv == nil && cc.Fault != "none" && cc.Fault != "foreign-id" && !inDst {
+			if jerr == nil {
+				p.Violate("tamper", "C06:bad-entry-merged:"+cc.Fault+":size-bounded", desc+": the merge succeeded", cc)
+				return
+			}
+			if d := unchanged(w, pre, cc.Dst); d != "" {
+				p.Violate("tamper", "C06:failed-merge-changed-log", fmt.Sprintf("%s: the merge failed (%v) but the destination changed (%s)", desc, jerr, d), cc)
+				return
+			}
+			p.Add(0, 0, 1, 0)
+			return
+		}
+		if pv == nil {
+			return
+		}
+	}
 	if pv != nil {
 		p.Violate("tamper", "C06:merge-panic:"+cc.Fault+":"+run.PanicSite(stack), fmt.Sprintf("%s panicked: %v at %s", desc, pv, stack), cc)
 		return
@@ -429,6 +450,11 @@ func c06Probe(p *run.Part, cfg *seqx.Config, seen *sync.Map) func(w *seqx.World,
 				for _, f := range c06Faults {
 					cc := c06Case{Config: cfg.Name, Path: c.Path, Dst: dst, Src: src, Pos: pos, Fault: f}
 					tamperOne(p, cfg, cc)
+				}
+				for _, f := range []string{"sig-removed", "payload-altered"} {
+					for size := 0; size <= n; size++ {
+						tamperOne(p, cfg, c06Case{Config: cfg.Name, Path: c.Path, Dst: dst, Src: src, Pos: pos, Fault: f, Size: size + 1})
+					}
 				}
 			}
 			// truncated destination: the tampered source is the destination's own full history
